@@ -19,7 +19,7 @@ def strKey (s : String) : Nat := s.foldl (fun a c => a * 131 + c.toNat) 7
 /-- is the op about exchange `id`? -/
 def mentions (id : String) (f : List String) : Bool :=
   match f with
-  | op :: i :: _ => i == id && ["resp", "blk2", "cont", "bad", "ack", "rst", "pong", "cancel", "obscancel"].contains op
+  | op :: i :: _ => i == id && ["resp", "nb0", "blk2", "cont", "bad", "ack", "rst", "pong", "cancel", "obscancel"].contains op
   | _ => false
 
 /-- the registration of observation `id` (deadline `dl` seconds, 0 = none) succeeds iff the first op about it — before
@@ -68,7 +68,18 @@ def events (udp bw : Bool) (ops : List (List String)) : List TEvent := Id.run do
     | ["obscancel", id] =>
       let id := id.toNat?.getD 0
       evs := evs ++ [.cancelLive id]
+    | ["nb0", id, _, _, seq] =>
+      -- a notification carrying Block2: the follow-up GET is prepared under a fresh token and kept in the send cache until it
+      -- expires (the body is complete in this block, nothing else removes it)
+      let id := id.toNat?.getD 0
+      if bw && seq != "-" then
+        evs := evs ++ [.insert (siteOf "BlockWise.handleObserveResponse" "sendingMessagesCache") (500000 + evs.length) (500000 + evs.length + 1000 * id) 3]
     | ["ping", id, _] =>
+      let id := id.toNat?.getD 0
+      owners := id :: owners
+      evs := evs ++ [.insert (if udp then siteOf "Conn.AsyncPing" "midHandlerContainer" else siteOf "Conn.AsyncPing" "tokenHandlerContainer") (200000 + id) id 0]
+    | ["aping", id] =>
+      -- the registration is a `handle` site: it ends with the pong or with the call of the returned closure
       let id := id.toNat?.getD 0
       owners := id :: owners
       evs := evs ++ [.insert (if udp then siteOf "Conn.AsyncPing" "midHandlerContainer" else siteOf "Conn.AsyncPing" "tokenHandlerContainer") (200000 + id) id 0]
@@ -124,7 +135,7 @@ def judgeLine (line : String) : String :=
       | last :: restRev =>
         if !last.startsWith "final:" then "violates unparsable-observation" else
         let opNames := (words inp).drop 5 |>.map (fun op => (op.splitOn ":").headD "")
-        let ours := opNames.map (fun n => ["resp", "blk2", "cont", "bad", "ack", "rst", "pong"].contains n)
+        let ours := opNames.map (fun n => ["resp", "nb0", "blk2", "cont", "bad", "ack", "rst", "pong"].contains n)
         match parsePoint (last.drop 6).toString, restRev.reverse.mapM parsePoint with
         | some fin, some pts =>
           let pts3 := (pts.zip (ours ++ List.replicate pts.length false)).map (fun (p, o) => (p.1, p.2, o))
